@@ -12,6 +12,7 @@ package main
 
 import (
 	"bufio"
+	"bytes"
 	"context"
 	"crypto/sha256"
 	"encoding/hex"
@@ -851,11 +852,11 @@ func c15Convert(m *proto.Message, o *mesgdef.Options) (proto.Message, bool) {
 }
 
 const (
-	c15OptNilFactory = iota // the round's shared &mesgdef.Options{} (Factory nil)
-	c15OptNil               // nil options
-	c15OptPreset            // the round's shared options with Factory preset
-	c15OptOwnDefault        // the operation's own value from mesgdef.DefaultOptions(), customised by the operation
-	c15OptOwnDefaultPlain   // the same, IncludeExpandedFields left as it came
+	c15OptNilFactory      = iota // the round's shared &mesgdef.Options{} (Factory nil)
+	c15OptNil                    // nil options
+	c15OptPreset                 // the round's shared options with Factory preset
+	c15OptOwnDefault             // the operation's own value from mesgdef.DefaultOptions(), customised by the operation
+	c15OptOwnDefaultPlain        // the same, IncludeExpandedFields left as it came
 )
 
 var c15OptNames = []string{"shared_nil_factory", "nil", "shared_preset", "own_default_customised", "own_default"}
@@ -1024,6 +1025,12 @@ func c15GenListener(c *c15Cfg, r *rng) c15Op {
 	buf1, buf2 := r.pick(-1, 1, 2, 128), r.pick(-1, -1, 1, 2, 128)
 	mode := r.intn(3) // 0 broadcast only, 1 broadcast only + mesg copy, 2 retain messages too
 	reuse := r.chance(2, 3)
+	if c.dev != nil && r.chance(1, 2) { // developer fields handed over by a decoder that reuses its scratch array for the next message
+		fx1 = c.dev
+		if r.chance(1, 2) {
+			mode = 0
+		}
+	}
 	return c15Op{name: "listener", params: fmt.Sprintf("fixture=%s then=%s channel_buffer=%d then=%d mode=%d reuse=%t", fx1.name, fx2.name, buf1, buf2, mode, reuse),
 		mk: func(e *c15Env) func() string {
 			rd1 := c15NewReader(fx1.data, e.pr, 3, 500)
@@ -1032,7 +1039,7 @@ func c15GenListener(c *c15Cfg, r *rng) c15Op {
 				d := c15NewDig()
 				lis := filedef.NewListener(c15ListenerOpts(buf1)...) // own listener (and its goroutine)
 				defer lis.Close()
-				run := func(rd *c15Reader) {
+				run := func(rd *c15Reader, fx *c15Fixture) {
 					opts := []decoder.Option{decoder.WithMesgListener(lis)}
 					switch mode {
 					case 0:
@@ -1056,13 +1063,27 @@ func c15GenListener(c *c15Cfg, r *rng) c15Op {
 							out := f.ToFIT(nil)
 							d.tag("%s:%d", c15FileIdType(out.Messages), len(out.Messages))
 							d.mesgs(out.Messages, c.maxMesgs)
+							if fx == c.dev && seq == 0 { // two objects, no shared memory: what the listener built does not live in the decoder's scratch arrays
+								if ref, rerr := decoder.New(bytes.NewReader(c.dev.data)).Decode(); rerr == nil {
+									want := c15BuildFile(c15FileIdType(ref.Messages), ref.Messages).ToFIT(nil)
+									a, b := c15NewDig(), c15NewDig()
+									a.mesgs(out.Messages, 0)
+									b.mesgs(want.Messages, 0)
+									if a.sum() != b.sum() {
+										c15OutMu.Lock()
+										emitJSON("FAIL", "", map[string]any{"phase": "listener", "op": "listener", "kind": "the file a listener built from a broadcast-only decoder differs from the file built from the decoded messages (aliasing between the two objects)",
+											"fixture": c.dev.name, "mode": mode, "channel_buffer": buf1, "messages": len(out.Messages), "seed": c.seed})
+										c15OutMu.Unlock()
+									}
+								}
+							}
 						}
 					}
 				}
-				run(rd1)
+				run(rd1, fx1)
 				if reuse { // the same goroutine reuses the same listener for a second decode
 					lis.Reset(c15ListenerOpts(buf2)...)
-					run(rd2)
+					run(rd2, fx2)
 				}
 				lis.Close()
 				return d.sum()
